@@ -253,3 +253,17 @@ MUTANTS += [
     ("c06_all_covering_replaces_results", RS, "            collected[cr.hash_key].results[r.subset_indexes] = tr.results\n", "            if r.subset_indexes.any():\n                collected[cr.hash_key].results[r.subset_indexes] = tr.results\n            else:\n                collected[cr.hash_key].results = np.ma.masked_all(shape=r.subset_indexes.shape, dtype=tr.results.dtype)\n", ["C06"]),
     ("c06_data_only_when_all", RS, "                else:\n                    getattr(collected[cr.hash_key], axis)[r.subset_indexes] = values\n", "", ["C06"]),
 ]
+ST = "ioos_qc/streams.py"
+MUTANTS += [
+    ("c05_pandas_ending_le", ST, "                            subset[self.time_column] < context.window.ending,", "                            subset[self.time_column] <= context.window.ending,", ["C05"]),
+    ("c05_numpy_ending_le", ST, "subset_indexes = (subset_indexes) & (self.tinp < context.window.ending)", "subset_indexes = (subset_indexes) & (self.tinp <= context.window.ending)", ["C05"]),
+    ("c05_numpy_starting_gt", ST, "subset_indexes = (subset_indexes) & (self.tinp >= context.window.starting)", "subset_indexes = (subset_indexes) & (self.tinp > context.window.starting)", ["C05"]),
+    ("c05_numpy_zinp_not_subset", ST, "                subset_kwargs[\"zinp\"] = self.zinp[subset_indexes]", "                subset_kwargs[\"zinp\"] = self.zinp", ["C05"]),
+    ("c05_pandas_lat_is_lon", ST, "                subset_kwargs[\"lat\"] = subset.loc[:, self.lat_column]", "                subset_kwargs[\"lat\"] = subset.loc[:, self.lon_column]", ["C05"]),
+    ("c05_numpy_window_needs_both", ST, "            if context.window.starting is not None or context.window.ending is not None:\n                if self.tinp is not None:", "            if context.window.starting is not None and context.window.ending is not None:\n                if self.tinp is not None:", ["C05"]),
+    ("c05_pandas_index_regress", ST, "        df = self.df.reset_index(drop=True)\n", "        df = self.df\n", ["C05"]),
+    ("c05_numpy_reshape_regress", ST, "                if data_input.size == runinput.size:\n                    data_input = data_input.reshape(original_shape)", "                data_input = data_input.reshape(original_shape)", ["C05"]),
+    ("c05_xarray_z_not_subset", ST, "                    subset_kwargs[\"zinp\"] = ds[self.z_var].sel(**label_indexes).to_numpy()\n                elif self.z_var in ds.variables and ds[self.z_var].size == ds[call.stream_id].size:", "                    subset_kwargs[\"zinp\"] = ds[self.z_var].to_numpy()\n                elif self.z_var in ds.variables and ds[self.z_var].size == ds[call.stream_id].size:", ["C05"]),
+    ("c05_numpy_context_mask_carried_over", ST, "            subset_indexes = np.full_like(shape_like, 1, dtype=bool)\n", "            subset_indexes = np.full_like(shape_like, 1, dtype=bool) if 'subset_indexes' not in locals() else subset_indexes\n", ["C05"]),
+    ("c05_netcdf_lat_lon_swapped", ST, "            varkwargs[\"lat\"] = ds.variables[self.lat_var].to_numpy()", "            varkwargs[\"lat\"] = ds.variables[self.lon_var].to_numpy()", ["C05"]),
+]
